@@ -153,6 +153,24 @@ def h_bandpass(env, s_lp=3, s_hp=2):
             env.check("hard_band_outside_case%d" % case, env.implies(env.and_(env.not_(inside), *hyp), env.eq(gb, 0.0)))
 
 
+def h_bandpass_resolution(env, s=0, px=2.0, res_lp=8.0, res_hp=16.0):
+    """band edges given as target resolutions on a NON-cubic map: the band-pass must equal the difference of the two low-passes
+    with the same parameters (same resolution, pixel size, Gaussian), whatever edge length the radius is derived from"""
+    cm = env.module("cryomap")
+    n, f, x = _setup(env)
+    env.assume(env.and_(env.ge(n[0], 16), env.ge(n[1], 16), env.ge(n[2], 16)))
+    yb = cm.bandpass(x, lp_target_resolution=res_lp, hp_target_resolution=res_hp, pixel_size=px, lp_gaussian=s, hp_gaussian=s)
+    yo = cm.lowpass(x, target_resolution=res_lp, pixel_size=px, gaussian=s)
+    yi = cm.lowpass(x, target_resolution=res_hp, pixel_size=px, gaussian=s)
+    try:
+        gb, go, gi = _gain(env, x, yb, f), _gain(env, x, yo, f), _gain(env, x, yi, f)
+    except SkipWitness:
+        return
+    if gb is None or go is None or gi is None:
+        return
+    env.check("bandpass_by_resolution_is_difference_of_lowpasses", env.eq(gb, go - gi))
+
+
 def h_soft_edge(env, sigma=1, region="pass"):
     """Gaussian edge profile (numerics, outside the solver's reach): evaluated on the concrete witness run only.
     The solver still chooses the witness inside the region the clause talks about."""
@@ -214,7 +232,8 @@ def jobs(tier, seed):
     j = [("h_lowpass_hard", {"kind": "lowpass"}), ("h_lowpass_hard", {"kind": "highpass"}), ("h_lowpass_hard", {"kind": "lowpass", "cubic": True}),
          ("h_complement", {"sigma": 0}), ("h_complement", {"sigma": 2}), ("h_complement", {"sigma": 3}),
          ("h_soft_edge", {"sigma": 1, "region": "pass"}), ("h_soft_edge", {"sigma": 2, "region": "pass"}), ("h_soft_edge", {"sigma": 1, "region": "stop"}),
-         ("h_bandpass", {"s_lp": 0, "s_hp": 0}), ("h_bandpass", {"s_lp": 3, "s_hp": 2}), ("h_resolution", {})]
+         ("h_bandpass", {"s_lp": 0, "s_hp": 0}), ("h_bandpass", {"s_lp": 3, "s_hp": 2}), ("h_resolution", {}),
+         ("h_bandpass_resolution", {"s": 0}), ("h_bandpass_resolution", {"s": 2, "px": 1.5, "res_lp": 6.0, "res_hp": 20.0})]
     if tier == "thorough":
         j += [("h_bandpass", {"s_lp": 2, "s_hp": 2}), ("h_complement", {"sigma": 1}), ("h_complement", {"sigma": 4})]
     return j
